@@ -140,7 +140,7 @@ pub const C12_RULE: &str = "seeded scenarios: one ruleset object (1-5 generated 
 pub fn c12_def() -> PropDef {
     PropDef {
         id: "C12",
-        generate: |vs, idx, _| Record::Sim(crate::c12::generate(vs, idx, "C12")),
+        generate: |vs, idx, tier| Record::Sim(crate::c12::generate(vs, idx, "C12", tier == crate::driver::Tier::Thorough)),
         check: |rec, c| match rec {
             Record::Sim(s) => crate::c12::check(s, c),
             _ => Verdict::harness("wrong record kind".into()),
@@ -176,6 +176,7 @@ pub fn c12_def() -> PropDef {
             "hit.cancelled_at_suspension_point.1",
             "hit.cancelled_at_suspension_point.4",
             "hit.cancelled_at_suspension_point.7",
+            "hit.sixteen_or_more_evaluations_abandoned_on_one_ruleset",
         ],
     }
 }
